@@ -1,7 +1,6 @@
 package props
 
 import (
-	"bytes"
 	"fmt"
 	nurl "net/url"
 	"os"
@@ -10,7 +9,6 @@ import (
 	"sync"
 	"testing"
 
-	"github.com/go-shiori/dom"
 	distiller "github.com/markusmobius/go-domdistiller"
 	"golang.org/x/net/html"
 	"pgregory.net/rapid"
@@ -21,8 +19,9 @@ import (
 func init() { register("C12", checkC12) }
 
 type c12Job struct {
-	Doc int `json:"doc"`
-	Opt int `json:"opt"`
+	Doc    int  `json:"doc"`
+	Opt    int  `json:"opt"`
+	Reader bool `json:"reader"` // the call is ApplyForReader on the document's bytes instead of Apply on the shared tree
 }
 
 type c12Extra struct {
@@ -37,7 +36,16 @@ func genC12(t *rapid.T) *Case {
 	var ex c12Extra
 	nd := rapid.IntRange(2, 4).Draw(t, "ndocs")
 	for i := 0; i < nd; i++ {
+		if i >= 2 && rapid.IntRange(0, 3).Draw(t, "legacy") == 0 {
+			ex.Docs = append(ex.Docs, legacyDoc(t))
+			continue
+		}
 		d := genC11Doc(t)
+		if rapid.IntRange(0, 2).Draw(t, "sparse") == 0 {
+			// English prose with one non-ASCII word: the bytes whose encoding a guesser cannot decide
+			para := sparseNonASCIIParagraph(rapid.SampledFrom([]string{"café", "Zürich", "don’t", "naïve"}).Draw(t, "special"), rapid.Bool().Draw(t, "longprose"))
+			d.HTML = strings.Replace(d.HTML, "</body>", para+"</body>", 1)
+		}
 		ex.Docs = append(ex.Docs, d)
 		if i < 2 {
 			o := d.Opts
@@ -51,12 +59,20 @@ func genC12(t *rapid.T) *Case {
 	ex.Opts = append(ex.Opts, OptSpec{URL: "http://example.com/forum/thread?page=2", Algo: 1, LogFlags: 30})
 	g := rapid.IntRange(4, 24).Draw(t, "goroutines")
 	for i := 0; i < g; i++ {
-		ex.Jobs = append(ex.Jobs, c12Job{Doc: rapid.IntRange(0, nd-1).Draw(t, "jdoc"), Opt: rapid.IntRange(-1, len(ex.Opts)-1).Draw(t, "jopt")})
+		ex.Jobs = append(ex.Jobs, c12Job{Doc: rapid.IntRange(0, nd-1).Draw(t, "jdoc"), Opt: rapid.IntRange(-1, len(ex.Opts)-1).Draw(t, "jopt"),
+			Reader: rapid.IntRange(0, 3).Draw(t, "jreader") == 0})
+	}
+	for i := range ex.Jobs {
+		if ex.Docs[ex.Jobs[i].Doc].Legacy {
+			ex.Jobs[i].Reader = true
+		}
 	}
 	ex.Rounds = rapid.IntRange(1, 3).Draw(t, "rounds")
 	ex.Salt = rapid.IntRange(0, 1<<30).Draw(t, "salt")
 	for i := range ex.Docs {
-		ex.Docs[i].HTML = saltAttributes(ex.Docs[i].HTML, ex.Salt+i*1000)
+		if !ex.Docs[i].Legacy {
+			ex.Docs[i].HTML = saltAttributes(ex.Docs[i].HTML, ex.Salt+i*1000)
+		}
 	}
 	c := &Case{Property: "C12"}
 	c.SetExtra(ex)
@@ -139,7 +155,7 @@ func checkC12(c *Case) (*Violation, caseInfo) {
 	}
 	trees := make([]*html.Node, len(ex.Docs))
 	for i, d := range ex.Docs {
-		t, err := dom.Parse(bytes.NewReader([]byte(d.HTML)))
+		t, err := refParse(d.HTML)
 		if err != nil {
 			info.Skip = "parse-failed"
 			return nil, info
@@ -192,7 +208,13 @@ func checkC12(c *Case) (*Violation, caseInfo) {
 							got = fmt.Sprintf("panic: %v", rec)
 						}
 					}()
-					res, err := distiller.Apply(tr, o)
+					var res *distiller.Result
+					var err error
+					if j.Reader {
+						res, err = distiller.ApplyForReader(strings.NewReader(ex.Docs[j.Doc%len(ex.Docs)].Bytes()), o)
+					} else {
+						res, err = distiller.Apply(tr, o)
+					}
 					if err != nil {
 						got = "error: " + err.Error()
 					} else {
@@ -211,7 +233,12 @@ func checkC12(c *Case) (*Violation, caseInfo) {
 	want := make([]string, len(ex.Jobs))
 	for i, j := range ex.Jobs {
 		tr, o := pick(j)
-		out := guarded(0, func() (*distiller.Result, error) { return distiller.Apply(tr, o) })
+		out := guarded(0, func() (*distiller.Result, error) {
+			if j.Reader {
+				return distiller.ApplyForReader(strings.NewReader(ex.Docs[j.Doc%len(ex.Docs)].Bytes()), o)
+			}
+			return distiller.Apply(tr, o)
+		})
 		if out.Panicked {
 			info.Skip = "apply-panicked"
 			return nil, info
